@@ -303,7 +303,10 @@ func (k Keeper) CreateReimbursement(ctx sdk.Context, proposalID uint64, amount s
 	if totalPayout.IsPositive() {
 		panic("not enough payout made")
 	}
-	reimbursement := types.NewReimbursement(amount, beneficiary, ctx.BlockTime().Add(k.GetClaimProposalParams(ctx).PayoutPeriod))
+	// Only the bond denomination is collected from the providers, so that is what is owed: a loss that
+	// also names other denominations must not turn into a debt nothing was ever collected for.
+	reimbursed := sdk.NewCoins(sdk.NewCoin(bondDenom, amount.AmountOf(bondDenom)))
+	reimbursement := types.NewReimbursement(reimbursed, beneficiary, ctx.BlockTime().Add(k.GetClaimProposalParams(ctx).PayoutPeriod))
 	k.SetReimbursement(ctx, proposalID, reimbursement)
 
 	totalCollateral = totalCollateral.Sub(amount.AmountOf(bondDenom))
